@@ -49,7 +49,7 @@ pub struct RunEv { pub text: Seq<char>, pub exit_due_after: bool, pub exit_cmd_a
 impl Rest { pub uninterp spec fn runs(&self) -> Seq<RunEv>; }
 
 // projection of shell.rs Shell (fields checked)
-pub struct Shell { pub call_stack: CallStack, pub traps: TrapHandlerConfig, pub last_exit_status: u8, pub options: RuntimeOptions, pub rest: Rest }
+pub struct Shell { pub call_stack: CallStack, pub traps: TrapHandlerConfig, pub last_exit_status: u8, pub last_pipeline_statuses: Vec<u8>, pub options: RuntimeOptions, pub rest: Rest }
 
 // an EXIT handler would run now: registered, not already running, delivery not blocked
 pub open spec fn exit_due(s: Shell) -> bool {
@@ -102,3 +102,8 @@ impl Shell {
             final(self).traps.handler(TrapSignal::Exit) is Some ==> final(self).runs().last().exit_cmd_after == final(self).traps.handler(TrapSignal::Exit)->Some_0.command@,
     { unimplemented!() }
 }
+
+// std pieces a status restore may be written with (documented behaviour; not used by the code today)
+pub assume_specification<T: Copy> [Option::<&T>::copied] (o: Option<&T>) -> (r: Option<T>)
+    ensures o is None ==> r is None, o is Some ==> r == Some(*o->Some_0);
+
